@@ -6,6 +6,7 @@ import shutil
 import gen
 import mockca
 import vlib
+from ext import idnagen
 
 FINISH = dict(
     level="proof",
@@ -14,6 +15,10 @@ FINISH = dict(
         "Lean compiler for acmed_model",
         "py/gen.py extractor of the back-off table (Gen/Consts.lean)",
         "in-crate probe op `schedule` calling the real Certificate::schedule_renewal on files made by vhelper",
+        "configured Unicode / mixed-case names (py/ext/idnagen.py pool: every script with case, capital sigma contexts, "
+        "U+0130, Kelvin sign, decomposed spellings; configured as written): the certificate carries the MODEL's A-label "
+        "(Model.Lower / Model.Idna; lower-casing tables regenerated from the compiled std over every scalar value), each "
+        "name first through the real to_idna, the model and the independent judge of py/ext/idnagen.py",
         "modelled, not verified: OpenSSL ASN1_TIME_diff and X.509 parsing, the thread_rng jitter "
         "(unknown to the judge: the whole admissible interval is accepted), SAN text rendering",
     ],
@@ -38,6 +43,21 @@ NAMES = ["a.example", "b.example.org", "*.example.org", "xn--bcher-kva.example",
 RAW = {"xn--bcher-kva.example": "Bücher.example", "a.example": "A.Example", "b.example.org": "b.example.org"}
 IPS = [("192.0.2.7", "192.0.2.7"), ("2001:db8::1", "2001:0db8:0000:0000:0000:0000:0000:0001"),
        ("::ffff:192.0.2.1", "::ffff:192.0.2.1"), ("10.0.0.1", "10.0.0.1"), ("2001:db8::a:b", "2001:DB8::A:B")]
+
+
+def add_idn_names(ctx):
+    """Configured Unicode / mixed-case spellings: NAMES gets the MODEL's A-label (what a CA would have issued the
+    certificate for), RAW the configured spelling."""
+    fixed = idnagen.evaluate(ctx, sorted((raw, ()) for raw in RAW.values()), prefix="names:")
+    for norm, raw in sorted(RAW.items()):
+        if fixed.get(raw) != norm:
+            ctx.broke("generator", "the hand-written normal form of %r is %r, the model gives %r" % (raw, norm, fixed.get(raw)),
+                      {"kind": "idnagen", "op": "idna", "s": raw})
+    for x in idnagen.pool(ctx, 24 if ctx.quick() else 400, wildcard_ok=True, prefix="names:"):
+        if x["alabel"] not in RAW and x["alabel"] not in NAMES:
+            NAMES.append(x["alabel"])
+            RAW[x["alabel"]] = x["raw"]
+            ctx.count("names:idn-pool")
 
 
 def gen_triple(rng, idx, root):
@@ -122,8 +142,9 @@ def run(ctx):
     if ctx.replay:
         return replay(ctx)
     gen.gen_consts()
-    ctx.prove()
     vlib.build_acmed()
+    gen.gen_lower()
+    ctx.prove()
     vlib.build_helper()
     helper = mockca.Helper()
     root = os.path.join(vlib.BUILD, "scratch", "c06-%d" % os.getpid())
@@ -132,6 +153,7 @@ def run(ctx):
         n = 500 if ctx.quick() else 12000
         triples = [c for c in vlib.corpus("C06")]
         triples = [dict(c, dir=os.path.join(root, "c%d" % i)) for i, c in enumerate(triples)]
+        add_idn_names(ctx)
         triples += [gen_triple(ctx.rng, i, root) for i in range(n)]
         good = []
         for t in triples:
@@ -197,6 +219,11 @@ def check(ctx, triples, binary=None, tag=""):
         ctx.case(canon, nontrivial=t["present"] == "both")
         ctx.count(tag + "files:" + t["present"])
         ctx.count(tag + "sans:" + t["shape"])
+        if any(x["type"] == "dns" and any(ord(c) > 127 for c in x["value"]) for x in t["ids"]):
+            ctx.count(tag + "ids:unicode-spelling")
+            if t["shape"] in ("exact", "permuted", "superset") and t["present"] == "both":
+                ctx.count(tag + "ids:unicode-spelling:covered:" + ("outcome:now" if isinstance(i, dict) and i.get("ok_ns") == "0"
+                                                                  else "outcome:wait-or-error"))
         replay_obj = {"triple": {k: v for k, v in t.items() if k not in ("dir",)}, "impl": i, "judge_in": j,
                       "verdict": v, "profile": "release" if binary else "dev"}
         if i is None or not isinstance(i, dict) or "panic" in i or i.get("died"):
@@ -229,6 +256,8 @@ def check(ctx, triples, binary=None, tag=""):
 
 
 def replay(ctx):
+    if idnagen.is_replay(ctx.replay):
+        return idnagen.replay_file(ctx.replay)
     with open(ctx.replay) as f:
         r = json.load(f)
     obj = r.get("replay", r)
